@@ -38,7 +38,16 @@ def r_segsibling(idx, rep, rule="R-SEGSIBLING"):
     b = m.functions.get("_line_segment_to_line_segment")
     if a is None or b is None:
         raise AnalysisError("_line_to_line_segment / _line_segment_to_line_segment not found")
-    la, lb = shape_lines(a), shape_lines(b)
+    # one-expression private helpers (`_clamp_to_unit_interval(x)` = min(max(x, 0.0), 1.0)) are read as the expression they return
+    import copy as _copy
+    from ..core.inline import expand_helpers as _expand
+    a2, b2 = _copy.copy(a), _copy.copy(b)
+    a2.node = _expand(idx, m, a.node, depth=2, only=lambda c: c.name.startswith("_"))
+    b2.node = _expand(idx, m, b.node, depth=2, only=lambda c: c.name.startswith("_"))
+    la, lb = shape_lines(a2), shape_lines(b2)
+    # an inner product of two locals is one more local: whether it is named first (`b = np.dot(d1, d2)`) or written in place is not part of the algorithm
+    la = [x for x in (l.replace("np.dot(_, _)", "_") for l in la) if x.strip() != "_ = _"]
+    lb = [x for x in (l.replace("np.dot(_, _)", "_") for l in lb) if x.strip() != "_ = _"]
 
     def allowed(sign, line):
         t = line.strip()
